@@ -327,15 +327,19 @@ func (en *DefaultEngine) runFirst(ctx context.Context) (bool, error) {
 		return true, nil
 	}
 	logg.DebugCtxf(ctx, "start pre-VM check")
-	en.ca.Push()
+	// the check runs on a cache of its own and must not disturb the position and the last value of a resumed session
+	idx := en.st.SizeIdx
+	defer func() {
+		en.st.SizeIdx = idx
+	}()
+	ca := cache.NewCache()
 	rs := resource.NewMenuResource()
 	rs.AddLocalFunc("_first", en.first)
 	en.st.Down("_first")
-	defer en.ca.Pop()
 	defer en.st.Up()
 	defer en.st.ResetFlag(state.FLAG_TERMINATE)
 	defer en.st.ResetFlag(state.FLAG_DIRTY)
-	pvm := vm.NewVm(en.st, rs, en.ca, nil)
+	pvm := vm.NewVm(en.st, rs, ca, nil)
 	b := vm.NewLine(nil, vm.LOAD, []string{"_first"}, []byte{0}, nil)
 	b = vm.NewLine(b, vm.HALT, nil, nil, nil)
 	b, err = pvm.Run(ctx, b)
@@ -348,7 +352,7 @@ func (en *DefaultEngine) runFirst(ctx context.Context) (bool, error) {
 	} else {
 		if en.st.MatchFlag(state.FLAG_TERMINATE, true) {
 			en.execd = true
-			en.exit = en.ca.Last()
+			en.exit = ca.Last()
 			logg.InfoCtxf(ctx, "Pre-VM check says not to continue execution", "state", en.st)
 		} else {
 			r = true
